@@ -41,7 +41,7 @@ DEFAULT_GEN = ('default', {})
 
 JAC_FORMS = ('list', 'array', 'column', 'float', 'zerod')
 GRAD_FORMS = ('list', 'array', 'column', 'row', '2d', 'float', 'zerod', 'nested')
-V_KINDS = ('e_i', 'ones', 'alt', 'small-ones', 'big-e1')
+V_KINDS = ('e_i', 'ones', 'alt', 'small-ones', 'big-e1', 'ramp')
 V_FORMS = ('list', 'array', 'column')
 DD_XFORMS = ('list', 'array')
 N_VARIANTS = 12
@@ -105,13 +105,17 @@ def v_list(n):
     out.append(('alt', 'alt', [(-1.0) ** j for j in range(n)]))
     out.append(('small-ones', 'small-ones', [1e-3] * n))
     out.append(('big-e1', 'big-e1', [1e3] + [0.0] * (n - 1)))
+    out.append(('ramp', 'ramp', [float(j + 1) for j in range(n)]))      # full rank when reshaped to a matrix
     return out
 
 
 def dd_form_pairs(tier):
+    # '2d': x0 given as a (2, n/2) matrix (documented: "If x0 is an nXm array, then f is assumed to be a function of
+    # n*m variables"), v as a matrix of the same shape or as a flat list
+    extra = [('2d', '2d'), ('2d', 'list')]
     if tier == 'quick':
-        return [('list', 'list'), ('array', 'array'), ('array', 'column')]
-    return [(a, b) for a in DD_XFORMS for b in V_FORMS]
+        return [('list', 'list'), ('array', 'array'), ('array', 'column')] + extra
+    return [(a, b) for a in DD_XFORMS for b in V_FORMS] + extra
 
 
 def make_x(x, form):
@@ -443,6 +447,11 @@ def do_dd(acc, orc, gcache, vlabel, xform, vform, method, order):
     fun = ridge.make_fun(spec)
     vkind, _, v = [t for t in v_list(n) if t[1] == vlabel][0]
     vclass = 'unit-v' if sum(t * t for t in v) == 1.0 else 'scaled-v'
+    if xform == '2d':
+        if n % 2 or n < 4 or method == 'multicomplex':
+            return None                      # needs a (2, n/2) matrix with n/2 >= 2; Bicomplex matrices are not ravel-able
+        flat_fun = fun
+        fun = lambda X: flat_fun(np.ravel(X))          # noqa: E731  f of n*m variables
     x = make_x(orc.x, xform)
     vec = make_x(v, vform)
     u, r = orc.direction(vlabel, v)
